@@ -1259,7 +1259,7 @@ Plan gen_C09(std::uint64_t seed, int tier) {
         for (int b = 0; b < n; ++b)
             g.desc[b] &= ~(1u << c);
     }
-    std::vector<int> meths;
+    std::vector<int> meths, bmeths;
     for (int s : g.pick_slots(VP_SLOTS, g.r.range(1, 3))) {
         int mi = g.method(0, s, 0.8);
         meths.push_back(mi);
@@ -1280,6 +1280,25 @@ Plan gen_C09(std::uint64_t seed, int tier) {
         B.push_back(m2);
         for (int di : g.defs(0, m2, g.r.range(1, 5), 0.5))
             B.push_back(di);
+        // ... and, in half of the runs, a pointer-taking method on root-ish
+        // classes: classes that had no method at all when a pointer to one of
+        // their objects was made get their first one (seeded change C09-p)
+        if (g.r.chance(0.5)) {
+            std::set<int> taken;
+            for (int mi : meths)
+                taken.insert(g.p.recs[mi].slot);
+            std::vector<int> free_vp;
+            for (int s : VP_SLOTS)
+                if (!taken.count(s))
+                    free_vp.push_back(s);
+            if (!free_vp.empty()) {
+                int m3 = g.method(0, free_vp[g.r.below(free_vp.size())], 0.95);
+                B.push_back(m3);
+                bmeths.push_back(m3);
+                for (int di : g.defs(0, m3, g.r.range(1, 4), 0.6))
+                    B.push_back(di);
+            }
+        }
     }
     g.ev_load(g.order(A));
     g.ev_update(0);
@@ -1295,7 +1314,7 @@ Plan gen_C09(std::uint64_t seed, int tier) {
         int epoch = 0;
     } held[MAXVP];
     int epoch = 1;
-    bool b_loaded = false;
+    bool b_loaded = false, b_usable = false;
     auto use = [&](int mi) {
         auto& m = g.p.recs[mi];
         std::string kinds = SLOT_KINDS[m.slot];
@@ -1350,6 +1369,14 @@ Plan gen_C09(std::uint64_t seed, int tier) {
             if (vk[pos] != 'Q' && vk[pos] != 'C' && vk[pos] != 'W')
                 continue;
             auto lc = legal_classes(L, m.vp[pos]);
+            // sometimes a pointer to an object of any registered class: it
+            // may have no method at all yet
+            if (g.r.chance(0.3)) {
+                lc.clear();
+                for (int c = 0; c < L.n; ++c)
+                    if (L.reg[c] && (!L.abstract[c] || g_abstract_args))
+                        lc.push_back(c);
+            }
             if (lc.empty())
                 continue;
             Event e;
@@ -1380,7 +1407,10 @@ Plan gen_C09(std::uint64_t seed, int tier) {
             g.p.events.push_back(e);
             held[e.vslot] = held[e.vfrom];
         } else if (what < 8) {
-            use(meths[g.r.below(meths.size())]);
+            if (b_usable && !bmeths.empty() && g.r.chance(0.5))
+                use(bmeths[g.r.below(bmeths.size())]);
+            else
+                use(meths[g.r.below(meths.size())]);
         } else if (what < 9) {
             // an update in the middle of the pointers' lives
             // the same construction immediately before and after the update
@@ -1426,6 +1456,7 @@ Plan gen_C09(std::uint64_t seed, int tier) {
             }
             g.ev_update(0);
             ++epoch;
+            b_usable = b_loaded;
             if (pattern) {
                 Event after = before;
                 after.vslot = (before.vslot + 1) % MAXVP;
@@ -1445,6 +1476,9 @@ Plan gen_C09(std::uint64_t seed, int tier) {
     }
     for (int mi : meths)
         use(mi);
+    if (b_usable)
+        for (int mi : bmeths)
+            use(mi);
     return g.p;
 }
 
